@@ -71,8 +71,9 @@ def run(ctx):
             if k in seen:
                 continue
             seen.add(k)
-            r["x1000"] = 3000 * (i % 40)
-            r["y1000"] = 3000 * (i // 40)
+            off = rng.choice([0, 0, -250000, -999999 + 130000, 600000])
+            r["x1000"] = 3000 * (i % 40) + off
+            r["y1000"] = 3000 * (i // 40) + rng.choice([0, -150000])
             r["b100"] = 1000
             tt.append(r)
         tables.append(("generated", tt))
